@@ -19,7 +19,7 @@ func init() { Register(c11{}) }
 func (c11) ID() string    { return "C11" }
 func (c11) Level() string { return "fault_enumeration" }
 func (c11) Rule() string {
-	return "workload = seeded fault-free writer run (0..4 row groups, benign or random-byte strings, page size 1..8, three codecs, three shapes) producing a file of L bytes on the sim disk. Cases: the writer crashes at EVERY byte: every strict prefix 0..L-1 is opened and iterated with the documented client loop (files above 64 KiB: every cut in the last 4 KiB and within 8 bytes of each sink-call boundary plus a seeded sample). Source kind alternates between ReadSeeker and ReadSeeker+ByteReader. Non-trivial = cut > 4 (more than the leading magic is durable); distinct = distinct (file digest, cut)."
+	return "workload = seeded fault-free writer run (0..4 row groups, benign or random-byte strings, page size 1..8, three codecs, three shapes) producing a file of L bytes on the sim disk. Cases: the writer crashes at EVERY byte: every strict prefix 0..L-1 is opened and iterated with the documented client loop (files above 64 KiB: every cut in the last 4 KiB and within 8 bytes of each sink-call boundary plus a seeded sample). Source kind cycles through ReadSeeker; +ByteReader; +ByteReader+ReaderAt+WriterTo. Non-trivial = cut > 4 (more than the leading magic is durable); distinct = distinct (file digest, cut)."
 }
 func (c11) Assumptions() []string {
 	return []string{
@@ -86,10 +86,7 @@ func (p c11) Run(runseed uint64, tier string, acc *Acc) []*core.Violation {
 		if L > 64<<10 && cut < L-4096 && !boundary[cut] && !r.Chance(1, 16) {
 			continue
 		}
-		kind := "rs"
-		if (cut+int(runseed&1))%2 == 1 {
-			kind = "rsb"
-		}
+		kind := []string{"rs", "rsb", "rsx"}[(cut+int(runseed%3))%3]
 		cc := cut
 		c := &core.Case{Prop: "C11", Seed: runseed, W: f.W, SourceKind: kind, Cut: &cc}
 		v, rr, steps := p.check(c, f, limit)
@@ -168,7 +165,7 @@ func (p c11) Check(c *core.Case) (*core.Violation, error) {
 
 func (p c11) Shrink(c *core.Case) []*core.Case {
 	var out []*core.Case
-	if c.SourceKind == "rsb" {
+	if c.SourceKind == "rsb" || c.SourceKind == "rsx" {
 		n := *c
 		n.SourceKind = "rs"
 		out = append(out, &n)
